@@ -238,6 +238,9 @@ SCALAR_NAMES = ['int', 'float', 'complex', 'str', 'bytes', 'bytearray', 'bool', 
                 'date', 'time', 'datetime', *PATH_TYPES.keys(), *PATTERNS.keys()]
 
 
+_PLAIN = (int, float, complex, str, bytes, bytearray, bool)
+
+
 class Scalar(Node):
     def __init__(self, spec):
         super().__init__(spec)
@@ -319,6 +322,8 @@ class Scalar(Node):
         ty = type(v)
         if n == 'any':
             return Acc(v)
+        if ty not in _PLAIN and isinstance(v, _PLAIN):
+            return Unspec('instance of a subclass of an interchange type given to a scalar target')
         if n == 'none':
             return Acc(None) if v is None else Rej('not None')
         if n == 'bool':
